@@ -72,6 +72,9 @@ func tablesFamily(ctx *Ctx) error {
 		return err
 	}
 	defer m.Close()
+	if ctx.Replay == "" {
+		ruleFirstUse(res, ctx.Prop)
+	}
 
 	type q struct {
 		line string
